@@ -14,8 +14,12 @@ def main():
     while a:
         x = a.pop(0)
         if x == "--only": only = a.pop(0)
+        elif x == "--seeded": pass
         elif x == "--tier": tier = a.pop(0)
-    muts = json.load(open(os.path.join(HERE, "mutations.json")))
+    listfile = os.path.join(HERE, "mutations.json")
+    if "--seeded" in sys.argv:
+        listfile = os.path.join(VERIF, "seeded", "index.json")
+    muts = json.load(open(listfile))
     rows = []
     for m in muts:
         if only and only not in m["name"]:
@@ -23,12 +27,19 @@ def main():
         shutil.rmtree(MUT, ignore_errors=True)
         os.makedirs(MUT)
         subprocess.run(["rsync", "-a", "--exclude", "/target", "--exclude", ".git", "/repo/", MUT + "/repo/"], check=True)
-        p = os.path.join(MUT, "repo", m["file"])
-        s = open(p).read()
-        if s.count(m["old"]) != m.get("count", 1):
-            rows.append((m["name"], "MUTATION-DOES-NOT-APPLY (%d matches)" % s.count(m["old"]))); continue
-        s = s.replace(m["old"], m["new"])
-        open(p, "w").write(s)
+        if "patch" in m:
+            r = subprocess.run(["git", "apply", "--unsafe-paths", "--directory", MUT + "/repo", os.path.join(VERIF, m["patch"])], cwd="/", capture_output=True, text=True)
+            if r.returncode != 0:
+                r = subprocess.run(["patch", "-p1", "-d", MUT + "/repo", "-i", os.path.join(VERIF, m["patch"])], capture_output=True, text=True)
+            if r.returncode != 0:
+                rows.append((m["name"], "PATCH-DOES-NOT-APPLY " + r.stderr[-200:])); continue
+        else:
+            p = os.path.join(MUT, "repo", m["file"])
+            s = open(p).read()
+            if s.count(m["old"]) != m.get("count", 1):
+                rows.append((m["name"], "MUTATION-DOES-NOT-APPLY (%d matches)" % s.count(m["old"]))); continue
+            s = s.replace(m["old"], m["new"])
+            open(p, "w").write(s)
         for prop in m["props"]:
             t0 = time.time()
             env = dict(os.environ, VERIF_REPO=MUT + "/repo", VERIF_NO_EVIDENCE="1")
